@@ -302,6 +302,9 @@ class Evaluator:
             if isinstance(op, ast.Sub):
                 return a - b
             if isinstance(op, ast.Mult):
+                for l_, r_ in ((node.left, node.right), (node.right, node.left)):
+                    if isinstance(l_, ast.List) and len(l_.elts) == 1:
+                        return Term.atom(f"rep({self.ev(r_).key()},{self.ev(l_.elts[0]).key()})")  # [e] * n
                 return a * b
             if isinstance(op, ast.Div):
                 if b.is_const() and b.value() != 0:
@@ -351,6 +354,11 @@ class Evaluator:
                 return Term.atom(bk + "." + node.slice.value)
             idx = self.ev(node.slice)
             return Term.atom(f"sub({bk},{idx.key()})")
+        if isinstance(node, ast.NamedExpr):
+            v = self.ev(node.value)
+            if isinstance(node.target, ast.Name):
+                self.env[node.target.id] = v  # `(x := e)` binds x for the rest of the evaluation
+            return v
         if isinstance(node, ast.IfExp):
             return Term.atom(f"ite({self.cond(node.test)},{self.ev(node.body).key()},{self.ev(node.orelse).key()})")
         if isinstance(node, ast.Lambda):
@@ -361,6 +369,18 @@ class Evaluator:
             return Term.atom("[" + ",".join(self.ev(e).key() for e in node.elts) + "]")
         if isinstance(node, (ast.Compare, ast.BoolOp)):
             return Term.atom("cond(" + self.cond(node) + ")")
+        if isinstance(node, (ast.ListComp, ast.GeneratorExp)) and len(node.generators) == 1 and not node.generators[0].ifs \
+                and isinstance(node.generators[0].target, ast.Name):
+            g = node.generators[0]
+            var = g.target.id
+            uses = any(isinstance(n, ast.Name) and n.id == var for n in ast.walk(node.elt))
+            it = g.iter
+            if not uses and isinstance(it, ast.Call) and isinstance(it.func, ast.Name) and it.func.id == "range" and len(it.args) == 1 and not it.keywords:
+                # n copies of the same element expression
+                return Term.atom(f"rep({self.ev(it.args[0]).key()},{self.ev(node.elt).key()})")
+            sub = self.child(dict(self.env))
+            sub.env[var] = Term.atom("_c0")
+            return Term.atom(f"comp({sub.ev(node.elt).key()} for _c0 in {self.ev(it).key()})")
         return self.atom_of("opaque(" + " ".join(ast.unparse(node).split())[:80] + ")", node)
 
     def _call(self, node):
@@ -404,6 +424,12 @@ class Evaluator:
                 fname = f"{bk}.{f.attr}" if (bk == "this" or (bk.startswith("this.") and all(x.isidentifier() for x in bk.split(".")))) else f"({bk}).{f.attr}"
             elif root in self.this_names:
                 fname = "this." + fname.split(".", 1)[1]  # method of the context / adapted object: parameter name is irrelevant
+        if isinstance(f, ast.Attribute) and f.attr == "group" and len(node.args) == 1 and not node.keywords and isinstance(node.args[0], ast.Constant) \
+                and isinstance(node.args[0].value, int) and not isinstance(node.args[0].value, bool) and node.args[0].value >= 1:
+            # match.group(k) is match.groups()[k-1]
+            base = self.ev(f.value).key()
+            recv = base if all(x.isidentifier() for x in base.replace("~", "").split(".")) else f"({base})"
+            return Term.atom(f"sub({recv}.groups(),{node.args[0].value - 1})")
         kwd = {k.arg: self.ev(k.value).key() for k in node.keywords if k.arg}
         pos = [a.key() for a in args]
         cname = f.id if isinstance(f, ast.Name) else (f.attr if isinstance(f, ast.Attribute) else None)
